@@ -25,7 +25,7 @@ ASSUMPTIONS = ["nodes below a pre-fixed node are cut from the result; only repor
 @st.composite
 def partial_case(draw, tier):
     spec = draw(S.model_spec(depth=3 if tier == "quick" else 4, allow_fix=True, allow_const_leaves=True,
-                             profile=draw(st.sampled_from(["small", "small", "small", "large"]))))
+                             profile=draw(st.sampled_from(["small", "small", "small", "large", "huge"]))))
     lv = oracle.spec_leaves(spec)
     ids = sorted(lv)
     pi = []
@@ -66,7 +66,7 @@ def check_partial(case, ev):
         if mode == 0:
             open_box.append((lo, hi))
         elif mode == 1:
-            interp[i] = a
+            interp[i] = a if (a + b) % 2 == 0 else common.narrow(a, unsigned_ok=True)
             open_box.append((a, a))
         elif mode == 2:
             interp[i] = (a, b)
